@@ -314,6 +314,10 @@ def tui_common(ctx, cfg, fams):
 
 def c17(ctx):
     tui_common(ctx, "MonTui_C17.cfg", [("tui", 240, 6000), ("long", 8, 200)])
+    if "F24" in ctx.known and "F24" not in ctx.known_printed:
+        # F24 depends on the process's hash seed: it is listed whether or not this run happened to hit it
+        ctx.known_printed.add("F24")
+        log("KNOWN-FINDING: property=C17 F24 %s (not observed in this run)" % ctx.known["F24"]["what"])
     ctx.write_evidence("model_checking", "model: Tui.tla - every interleaving of trace updates (longer paths, new flows, new addresses, clear) with every command of the selection state machine and the loop's tick/draw, 1 trace x 2 flows x 3 hops and 2 traces x 1 flow x 2 hops: every drawn frame's indices exist in the displayed data; "
                        "implementation: distinct scripted runs of the real run_app + TuiApp + renderers (random keys from the whole binding table, trace updates, clears, resizes 1x1..300x100; plus TLC-generated scripts) each frame's selection state checked against the displayed data by TLC",
                        assumptions=TUI_ASSUME)
